@@ -162,6 +162,9 @@ def run(tier):
     for c in cases[: (6 if quick else 60)] + ar[: (4 if quick else 40)]:
         mal += [(k, t) for k, t in malformed(H.program_str(c["program"]), r)]
     inv = [("invalid-probabilities", f"x = 0\nwhile true:\n    x = {rhs}\nend\n") for rhs in INVALID_PROBS]
+    # a variable whose name the expression reader takes for a mathematical constant cannot denote a program variable (F68)
+    inv += [("reserved-constant-as-variable", f"{nm} = 2\ns = 0\nwhile true:\n    {nm} = 2 {{1/2}} 4\n    s = s + {nm}\nend\n")
+            for nm in ("e", "pi", "oo", "nan", "inf", "zoo")]
     mtasks = [{"fn": "harness.tasks.parse:parse_only", "args": {"text": t}} for _, t in mal + inv]
     outs = run_tasks(ptasks + ftasks + mtasks, timeout=45 if quick else 150, progress=100) if lean_ok else []
     pouts, fouts, mouts = outs[:len(ptasks)], outs[len(ptasks):len(ptasks) + len(ftasks)], outs[len(ptasks) + len(ftasks):]
